@@ -126,6 +126,7 @@ func (k msgServer) Complete(goCtx context.Context, msg *types.MsgComplete) (*typ
 			orderInProgress, _ = k.order.GetOrder(ctx, oldShard.OrderId)
 			orderList = append(orderList, &orderInProgress)
 		}
+		openedUnder := shard.OrderId
 		shard.OrderId = oldShard.OrderId
 		shard.RenewInfos = oldShard.RenewInfos
 		shard.CreatedAt = uint64(ctx.BlockHeight())
@@ -159,6 +160,29 @@ func (k msgServer) Complete(goCtx context.Context, msg *types.MsgComplete) (*typ
 			}
 			order.Shards = newShards
 			k.order.SetOrder(ctx, *order)
+		}
+		// the migration may have been opened under an order whose own period has ended since (the
+		// old shard has rolled over to a renewal): that order is none of the above and must not go
+		// on listing the new shard, which would be a dangling reference after the next hand-over
+		stale := true
+		for _, o := range orderList {
+			if o.Id == openedUnder {
+				stale = false
+			}
+		}
+		if staleOrder, found := k.order.GetOrder(ctx, openedUnder); stale && found {
+			keep := make([]uint64, 0)
+			for _, id := range staleOrder.Shards {
+				if id != shard.Id && id != oldShard.Id {
+					keep = append(keep, id)
+				}
+			}
+			if len(keep) == 0 {
+				k.order.RemoveOrder(ctx, staleOrder.Id)
+			} else {
+				staleOrder.Shards = keep
+				k.order.SetOrder(ctx, staleOrder)
+			}
 		}
 	} else {
 		shard.CreatedAt = uint64(ctx.BlockHeight())
